@@ -152,6 +152,8 @@ int64_t mc_env_now_ns(void) { return vclock_ns; }
 int env_real_close(int fd) { return __real_close(fd); }
 int env_stray_closes(void) { return stray_closes; }
 int env_data_calls(void) { return data_calls; }
+static int n_transient_faults;
+int env_transient_faults(void) { return n_transient_faults; }
 int env_last_tcp_fd_created(void) { return last_tcp_fd; }
 bool env_is_emulated_tcp(int fd) { return fd >= 0 && fd < MAXFD && fdt[fd].kind == K_TCP; }
 void env_set_raw(int fd) { if (fd >= 0 && fd < MAXFD) fdt[fd].raw = 1; }
@@ -1016,7 +1018,7 @@ void env_reset_deviations(void)
 {
     /* end of the explored part of an execution: the environment behaves by default from here on */
     cfg.io_menu = 0;
-    cfg.fault_data = cfg.fault_resource = cfg.fault_connect = 0;
+    cfg.fault_data = cfg.fault_resource = cfg.fault_connect = cfg.fault_transient = 0;
     for (int fd = 0; fd < fd_hi; fd++)
         if (fdt[fd].kind == K_TCP) {
             fdt[fd].trickle_left = 0;
@@ -1680,6 +1682,17 @@ ssize_t __wrap_send(int fd, const void *buf, size_t len, int flags)
     }
     if (len == 0)
         return __real_send(fd, buf, len, flags);
+    if (cfg.fault_transient && !e->raw && in_api() && dev_enabled(e)) {
+        /* the kernel is out of buffer memory for this one call; nothing is taken and the connection lives on */
+        char lb[48];
+        mklabel(lb, sizeof lb, "transient-send");
+        int a = mc_choose(3, MC_FAULT, lb);
+        if (a) {
+            n_transient_faults++;
+            errno = a == 1 ? ENOBUFS : ENOMEM;
+            return -1;
+        }
+    }
     int f = data_fault(e, "send", 1);
     if (f) {
         kill_fd(fd);
